@@ -111,6 +111,22 @@ func c10Templates() []c10Tmpl {
 			add(c10Tmpl{Family: "incdec-comparison", Types: ty, Params: []c10Param{{"a", ty}, {"b", ty}}, Result: "bool", Body: "return " + e})
 		}
 	}
+	// every pair of comparisons of the same two operands joined by || and && (all 36 operator pairs), and the
+	// same against one constant, over int, float (NaN in the grid) and string operands
+	cmpOps := []string{"==", "!=", "<", "<=", ">", ">="}
+	for _, ty := range []string{"int", "float64", "celsius", "string"} {
+		for _, o1 := range cmpOps {
+			for _, o2 := range cmpOps {
+				for _, j := range []string{"||", "&&"} {
+					add(c10Tmpl{Family: "comparison-pair(a.b" + j + "a.b)", Types: ty + " " + o1 + j + o2, Params: []c10Param{{"a", ty}, {"b", ty}}, Result: "bool", Body: fmt.Sprintf("return a %s b %s a %s b", o1, j, o2)})
+					add(c10Tmpl{Family: "comparison-pair(a.b" + j + "b.a)", Types: ty + " " + o1 + j + o2, Params: []c10Param{{"a", ty}, {"b", ty}}, Result: "bool", Body: fmt.Sprintf("return a %s b %s b %s a", o1, j, o2)})
+					if ty != "string" {
+						add(c10Tmpl{Family: "comparison-pair(a.c" + j + "a.c)", Types: ty + " " + o1 + j + o2, Params: []c10Param{{"a", ty}}, Result: "bool", Body: fmt.Sprintf("return a %s 2 %s a %s 2", o1, j, o2)})
+					}
+				}
+			}
+		}
+	}
 	add(c10Tmpl{Family: "impure-negated-comparison", Types: "int", Params: []c10Param{{"a", "int"}}, Result: "bool", Body: "return !(g(a) == g(a+1))"})
 	add(c10Tmpl{Family: "bool-literal-comparison", Types: "bool", Params: []c10Param{{"a", "bool"}}, Result: "bool", Body: "return !(a == true) || !(a != false)"})
 	// ---- assignOp
